@@ -235,7 +235,9 @@ package round
 //@ func (*timeoutCounter).IncrementTimeoutCount
 //@   prop C37
 //@   requires tc != nil && held(tc.mutex) == 0 && rheld(tc.mutex) == 0
+//@   requires tc.count >= 0 && tc.count < MaxInt64
 //@   ensures[monotone] tc.count >= old(tc.count)
 //@   ensures prrs == 0 ==> tc.count == old(tc.count)
+//@   at-call checkCap assert tc.count > old(tc.count)
 //@   lock-balanced tc.mutex
 //@   loop 1 invariant tc.count >= old(tc.count) && held(tc.mutex) == 1 && rheld(tc.mutex) == 0 && from == old(tc.count)
